@@ -364,6 +364,29 @@ def cross_main(args):
         sum(1 for r in done.values() if r["caught_by"]), sum(1 for r in done.values() if not r["caught_by"])))
 
 
+def try_main(args):
+    allr = json.load(open(os.path.join(ROOT, "mutation", "RESULTS.json")))
+    r = next(x for x in allr if x["id"] == args.try_id)
+    key = lambda m: (m["prop"], m["file"], m["func"], m["mutation"])  # noqa: E731
+    m = next(m for m in plan([r["prop"]], 100000, args.seed) if key(m) == key(r) and
+             hashlib.sha1(m["diff"].encode()).hexdigest()[:10] == r["id"])
+    wt = worktree()
+    ev = tempfile.mkdtemp(prefix="tvm-mutev-")
+    try:
+        open(os.path.join(wt, m["file"]), "w").write(m["source"])
+        print(m["diff"])
+        env = dict(os.environ, TVM_REPO=wt, TVM_EVIDENCE_DIR=ev, TVM_REPLAY_DIR=ev, VERIF_SEED="0")
+        c = subprocess.run(["/venv/bin/python", "-m", "tvm", "check", args.check or r["prop"], "--tier", args.tier],
+                           capture_output=True, text=True, cwd=ROOT, env=env)
+        print("\n".join(ln[:int(os.environ.get("COLS", "600"))] for ln in c.stdout.splitlines()
+                        if "monitors evaluated" not in ln)[-6000:])
+        print("exit", c.returncode)
+    finally:
+        sh("git -C /repo worktree remove --force %s" % wt)
+        shutil.rmtree(wt, ignore_errors=True)
+        shutil.rmtree(ev, ignore_errors=True)
+
+
 def write_md(allr):
     triage = {}
     tp = os.path.join(ROOT, "mutation", "TRIAGE.json")
@@ -415,7 +438,12 @@ def main():
     ap.add_argument("--cross", action="store_true", help="second phase: run what a check let through against the "
                     "checks of the other properties anchored in the same file")
     ap.add_argument("--render", action="store_true", help="only re-render RESULTS.md from RESULTS.json + TRIAGE.json")
+    ap.add_argument("--try", dest="try_id", help="apply the mutant with this id (RESULTS.json) to a scratch worktree and "
+                    "run the check given with --check (default: its property's) against it, printing the output")
+    ap.add_argument("--check", default="")
     args = ap.parse_args()
+    if args.try_id:
+        return try_main(args)
     if args.render:
         return write_md(json.load(open(os.path.join(ROOT, "mutation", "RESULTS.json"))))
     if args.cross:
